@@ -16,6 +16,7 @@ CHECKS = {
     'C11': dict(level='exploration', runs=_e1v('C11', 'h_k', ('ref', 'asan')), percase=5, deadline=dict(quick=150, thorough=1500)),
     'C14': dict(level='exploration', runs=_e1v('C14', 'h_k2', ('ref', 'obl', 'asan')), percase=5, deadline=dict(quick=150, thorough=1500)),
     'C17': dict(level='exploration', runs=_e1v('C17', 'h_k3', ('ref', 'asan')), percase=5, deadline=dict(quick=150, thorough=1500)),
+    'C18': dict(level='exploration', runs=_e1v('C18', 'h_k4', ('ref', 'asan')), percase=5, deadline=dict(quick=60, thorough=300)),
     'C12': dict(level='exploration', runs=_e1('C12', 'h_e1x'), percase=5, deadline=dict(quick=150, thorough=1500)),
     'C13': dict(level='exploration', runs=_e1('C13', 'h_e1x'), percase=5, deadline=dict(quick=150, thorough=1500)),
     'C06': dict(level='model_checking', runs=_e1('C06', 'h_e3'), percase=20, deadline=dict(quick=150, thorough=1500),
@@ -86,3 +87,7 @@ META['C14'] = dict(engine='E1 small-scope enumerator', design_ref='5/C14', techn
 META['C17'] = dict(engine='E1 small-scope enumerator', design_ref='5/C17', technique='bounded exhaustive enumeration of patterns x magnitude schemes with brute-force optimum over all n! matchings',
     text='All patterns of order <=4 and deviation-1 neighbourhoods of 5x5/6x6 bases x value schemes with ties, small integers, wide magnitude spreads and zero diagonals x 4 types through xldperm(job=5): structural rank < n iff non-zero return; perm is a bijection onto non-zeros; the sum of log|diagonal| equals the brute-force maximum over all perfect matchings; with r=exp(u), c=exp(v) matched entries scale to 1 and all others to <= 1; colptr/rowind/nzval bit-identical afterwards.',
     note='Complex magnitudes are |re|+|im| (what zldperm hands to MC64). Known finding F22 (Q/Q2 overlap in mc64wd_ on ties) is keyed to the eight failing inputs and reported as KNOWN-FINDING.')
+
+META['C18'] = dict(engine='E1 small-scope enumerator', design_ref='5/C18', technique='exhaustive enumeration of the (routine, single-argument corruption) table on real calls with bitwise snapshot oracle',
+    text='For xgssv, xgssvx, xgsisx, xgstrs, xgsrfs, xgscon, xgsequ, sp_xtrsv every documented single-argument corruption (non-square / negative dimension, each wrong Stype/Dtype/Mtype, lda<n, ncol<0, option values above and below their enumeration, lwork<-1, bad equed letter or non-positive R/C with pre-computed factors, X/B column mismatch, bad norm/flag letters) is applied to 3 base matrices x 4 types x {fresh, pre-factored} x {NC, NR}: info = -(position), A, B, X, permutations, etree, R, C, L, U, ferr/berr bit-identical to their snapshot, allocation ledger unchanged.',
+    note='The table is the space. equed is excluded from the snapshot (a fresh call resets it before validating, and it is an output). Runs also under ASan/UBSan. F23 (wrong position for an illegal B) was repaired by a fix: commit.')
